@@ -194,9 +194,10 @@ class Roles:
                             root, names = SX.member_chain(w[0])
                             if mf in names[:1]:
                                 clears = True
-                    if clears and len(ptypes) == 1:
+                    single = len(ptypes) == 1 or (ptypes[0] == 'int' and all(t_ == 'bool' for t_ in ptypes[1:]))      # one qubit operand (+ option flags)
+                    if clears and single:
                         out['reset'] = f
-                    elif len(ptypes) == 1 and gate_names and f.short not in gate_names:
+                    elif single and gate_names and f.short not in gate_names:
                         late.append(f)      # a single-qubit state writer that is no gate: the reset, minus its flag write
                     else:
                         out['gates'].append(f)
